@@ -144,6 +144,8 @@ pub struct Client {
     remote_addr: net::SocketAddr,
 
     time_base: time::Instant,
+    #[cfg(uflow_verif)]
+    verif_t0_ms: u64,
 
     state: State,
 
@@ -187,6 +189,8 @@ impl Client {
         // Send initial connection request
 
         let nonce = rand::random::<u32>();
+        #[cfg(uflow_verif)]
+        let nonce = crate::verif::nonce_u32(nonce);
 
         let request = frame::Frame::HandshakeSynFrame(frame::HandshakeSynFrame {
             version: PROTOCOL_VERSION,
@@ -228,6 +232,8 @@ impl Client {
             remote_addr,
 
             time_base: time::Instant::now(),
+            #[cfg(uflow_verif)]
+            verif_t0_ms: crate::verif::now_ms(),
 
             state,
 
@@ -387,6 +393,8 @@ impl Client {
     }
 
     fn now_ms(&self) -> u64 {
+        #[cfg(uflow_verif)]
+        if crate::verif::clock_enabled() { return crate::verif::now_ms().saturating_sub(self.verif_t0_ms); }
         let now = time::Instant::now();
         (now - self.time_base).as_millis() as u64
     }
